@@ -20,10 +20,7 @@ func genCLI(seed uint64, prop, tier, mode string) *Plan     { die(2, "cli engine
 func runCLI(p *Plan, keepLog bool) *RunResult               { die(2, "cli engine not built yet"); return nil }
 func cliStubMain(args []string)                             {}
 func selftestDeterminism(args []string)                     {}
-func runEnvBatch(b batchSpec, tier string, seed uint64, deadline time.Time) *batchAgg   { return runBatch(b, tier, seed, deadline, nil) }
-func runAuditBatch(b batchSpec, tier string, seed uint64, deadline time.Time) *batchAgg { return runBatch(b, tier, seed, deadline, nil) }
 func crashHandlerFor(b batchSpec) crashHandler { return nil }
 func minimiseSched(p *Plan, test func(*Plan) bool, deadline time.Time) *Plan { return nil }
 func minimiseCLI(p *Plan, test func(*Plan) bool, deadline time.Time) *Plan   { return nil }
 
-const auditSyscalls = "open,openat"
